@@ -87,7 +87,11 @@ func (commander *Commander) exec(ctx context.Context, parameters Parameters, scr
 				verifhook.Yield(ctx, "ref.busy", "ref", script.Reference)
 				return nil, nil, NewErrConflict()
 			}
-			defer commander.referencer.release(referenceTxReference, script.Reference)
+			// the reference stays reserved until the transaction is persisted: only then does the store
+			// lookup below show it to a competitor
+			executionContext.onCompletion(func() {
+				commander.referencer.release(referenceTxReference, script.Reference)
+			})
 			verifhook.Yield(ctx, "ref.taken", "ref", script.Reference)
 
 			_, err := commander.store.GetTransactionByReference(ctx, script.Reference)
